@@ -443,12 +443,17 @@ fn log_sum_exp<F: linfa::Float, A: Data<Elem = F>>(
     m: &ArrayBase<A, Ix2>,
     axis: Axis,
 ) -> Array<F, Ix1> {
-    // Find max value of the array
-    let max = m.iter().copied().reduce(F::max).unwrap();
-    // Computes `max + ln(exp(x1-max) + exp(x2-max) + exp(x3-max) + ...)`, which is equal to the
-    // log_sum_exp formula
-    let reduced = m.fold_axis(axis, F::zero(), |acc, elem| *acc + (*elem - max).exp());
-    reduced.mapv_into(|e| e.max(F::cast(1e-15)).ln() + max)
+    // Find the max value of every lane along `axis` (a single global max makes the sums of lanes
+    // far below it underflow)
+    let max = m.fold_axis(axis, F::neg_infinity(), |acc, elem| acc.max(*elem));
+    // Computes `max + ln(exp(x1-max) + exp(x2-max) + exp(x3-max) + ...)` per lane, which is equal
+    // to the log_sum_exp formula
+    Zip::from(m.lanes(axis)).and(&max).map_collect(|lane, &max| {
+        lane.fold(F::zero(), |acc, elem| acc + (*elem - max).exp())
+            .max(F::cast(1e-15))
+            .ln()
+            + max
+    })
 }
 
 /// Computes `exp(n - max) / sum(exp(n- max))`, which is a numerically stable version of softmax
